@@ -96,6 +96,19 @@ type (
 func (r sStack) String() string { return stk.Stack(r).String() }
 func (r sCond) String() string  { return stk.Condition(r).String() }
 
+// encArgs: the arguments of ONE SetEncap call installing every scheme of enc
+func encArgs(enc [][]string) []any {
+	var args []any
+	for _, e := range enc {
+		if len(e) == 1 {
+			args = append(args, e[0])
+		} else {
+			args = append(args, e)
+		}
+	}
+	return args
+}
+
 func applyOpts(s stk.Stack, opt int) {
 	if opt&1 != 0 {
 		s.SetParen(true)
@@ -138,11 +151,16 @@ func (n *Node) BuildStack() stk.Stack {
 	if n.Delim != "" {
 		s.SetDelimiter(n.Delim)
 	}
-	for _, e := range n.Enc {
-		if len(e) == 1 {
-			s.SetEncap(e[0])
-		} else {
-			s.SetEncap(e)
+	if len(n.Enc) >= 3 {
+		// one call with all schemes (bare strings for one-character schemes)
+		s.SetEncap(encArgs(n.Enc)...)
+	} else {
+		for _, e := range n.Enc {
+			if len(e) == 1 {
+				s.SetEncap(e[0])
+			} else {
+				s.SetEncap(e)
+			}
 		}
 	}
 	if n.ID != "" {
@@ -176,11 +194,15 @@ func (n *Node) BuildCond() stk.Condition {
 	if n.Ex != nil {
 		c.SetExpression(n.Ex.Build())
 	}
-	for _, e := range n.Enc {
-		if len(e) == 1 {
-			c.SetEncap(e[0])
-		} else {
-			c.SetEncap(e)
+	if len(n.Enc) >= 3 {
+		c.SetEncap(encArgs(n.Enc)...)
+	} else {
+		for _, e := range n.Enc {
+			if len(e) == 1 {
+				c.SetEncap(e[0])
+			} else {
+				c.SetEncap(e)
+			}
 		}
 	}
 	if n.ID != "" {
@@ -502,7 +524,7 @@ func (g *TreeGen) Stack(depth int) *Node {
 		n.Sym = g.pick(g.Syms)
 	}
 	used := map[string]bool{}
-	for k := g.R.Intn(3); k > 0; k-- {
+	for k := g.R.Intn(5); k > 0; k-- {
 		p := g.EncPairs[g.R.Intn(len(g.EncPairs))]
 		clash := false
 		for _, s := range p {
